@@ -430,15 +430,43 @@ class Seq(Val):
 
 
 class DictV(Val):
-    """dict with tuple-of-int / string keys: domain array + value array (keys flattened to ints)."""
-    __slots__ = ("dom", "val", "ksh", "vsh", "extra")
+    """dict keyed by pairs of ints (the cost cache) plus a few string keys.  dom / val are nested z3 arrays
+    Int -> (Int -> Bool) / Int -> (Int -> Real); string keys live in `extra`: name -> (present: Bool term, value: Real term)."""
+    __slots__ = ("dom", "val", "extra", "root", "base")
 
-    def __init__(self, dom, val, ksh, vsh, extra=None):
+    def __init__(self, dom, val, extra=None, root=None, base=None):
         self.dom = dom
         self.val = val
-        self.ksh = ksh
-        self.vsh = vsh
-        self.extra = extra or {}  # string keys -> (present Bool term, Val)
+        self.extra = dict(extra or {})
+        self.root = root
+        self.base = base        # None: closed dict (built from {} in the code); else: name of the symbolic dict it derives from
+
+    def strkey(self, k):
+        """(present, value) of a string key.  A symbolic dict (parameter, havoc) may contain *any* string key: unknown
+        keys get symbols that depend only on the symbolic dict's name, so every copy derived from it agrees on them."""
+        if k in self.extra:
+            return self.extra[k]
+        if self.base is None:
+            return (z3.BoolVal(False), z3.RealVal(0))
+        return (z3.Bool("%s.has_%s" % (self.base, k)), z3.Real("%s.str_%s" % (self.base, k)))
+
+    @staticmethod
+    def empty():
+        return DictV(z3.K(z3.IntSort(), z3.K(z3.IntSort(), z3.BoolVal(False))),
+                     z3.K(z3.IntSort(), z3.K(z3.IntSort(), z3.RealVal(0))), {})
+
+    def has(self, l, r):
+        return z3.Select(z3.Select(self.dom, l), r)
+
+    def get(self, l, r):
+        return z3.Select(z3.Select(self.val, l), r)
+
+    def set(self, l, r, v):
+        return DictV(z3.Store(self.dom, l, z3.Store(z3.Select(self.dom, l), r, z3.BoolVal(True))),
+                     z3.Store(self.val, l, z3.Store(z3.Select(self.val, l), r, v)), self.extra, self.root, self.base)
+
+
+DICT_STR_KEYS = ("tss",)
 
 
 def shape_of(v):
@@ -461,7 +489,7 @@ def shape_of(v):
     if isinstance(v, FnV):
         return FN
     if isinstance(v, DictV):
-        return Sh("dict", [v.ksh, v.vsh])
+        return Sh("dict")
     raise Unsupported("shape_of %r" % (v,))
 
 
@@ -486,9 +514,8 @@ def fresh(sh, base, facts, kind="array"):
     if sh.kind == "fn":
         return FnV(qual="<param:%s>" % base)
     if sh.kind == "dict":
-        ksh, vsh = sh.args
-        ks = [leaf_sort(l) for l in flatten_shape(ksh)]
-        dom = z3.Function(fresh_name(base + ".dom"), *(ks + [z3.BoolSort()]))
-        val = z3.Function(fresh_name(base + ".val"), *(ks + [leaf_sort(vsh)]))
-        return DictV(dom, val, ksh, vsh)
+        A2B = z3.ArraySort(z3.IntSort(), z3.ArraySort(z3.IntSort(), z3.BoolSort()))
+        A2R = z3.ArraySort(z3.IntSort(), z3.ArraySort(z3.IntSort(), z3.RealSort()))
+        nm = fresh_name(base)
+        return DictV(z3.Const(nm + ".dom", A2B), z3.Const(nm + ".val", A2R), {}, None, nm)
     raise Unsupported("fresh %r" % (sh,))
